@@ -32,7 +32,7 @@ def tokens_instr(i):
 
 
 def show_ret(r):
-    if isinstance(r, (tuple, list)):      # ('A', v): the step registers an awaitable through to_context() AND returns v
+    if isinstance(r, (tuple, list)):      # ('A', v): the step registers an awaitable through to_context() AND returns v; ('W', v): returns a future object standing for v
         return f'v{r[1]}'
     return 'n' if r is None else 't' if r == 'T' else f'v{r}'
 
@@ -140,6 +140,13 @@ def build_workchain(block, tabs, name='GenChain', alias=False):
     def mk_step(f):
         def body(self):
             r = self._oracle.step(f)
+            if isinstance(r, (tuple, list)) and r[0] == 'W':
+                # the VALUE the step returns is itself an awaitable object (a resolved future, e.g. `child.future()` handed on as
+                # the result): neither None nor a context assignment, so the chain stops at once with THAT OBJECT as its result
+                fut = self.loop.create_future()
+                fut.set_result('inner')
+                fut.verif_token = r[1]
+                return fut
             if isinstance(r, (tuple, list)):
                 fut = self.loop.create_future()
                 fut.set_result(0)
@@ -221,6 +228,8 @@ def result_token(v):
         return 'n'
     if isinstance(v, plumpy.ToContext):
         return 't'
+    if hasattr(v, 'verif_token'):          # the future object a step returned as its value
+        return f'v{v.verif_token}'
     return f'v{v}'
 
 
@@ -347,7 +356,7 @@ def random_tabs(rng, ids=4, stop_prob=0.08, with_awaitable=False):
         vals = []
         for _ in range(n):
             r = rng.random()
-            vals.append(rng.randint(0, 9) if r < stop_prob else ('A', rng.randint(0, 9)) if (with_awaitable and r < stop_prob + 0.04) else 'T' if r < 0.35 else None)
+            vals.append(rng.randint(0, 9) if r < stop_prob else ('A', rng.randint(0, 9)) if (with_awaitable and r < stop_prob + 0.04) else ('W', rng.randint(0, 9)) if (with_awaitable and r < stop_prob + 0.07) else 'T' if r < 0.35 else None)
         tabs['S'][f] = vals
     for p in range(ids + 8):
         n = rng.randint(0, 5)
